@@ -486,4 +486,6 @@ def history(seed_parts: tuple[Any, ...], n_steps: int = 8, n_modules: int = 5, k
         versions.append(files)
         op_log.append(step_ops)
         snapshots.append(copy.deepcopy(proj))
-    return {"versions": versions, "ops": op_log}
+    # some steps restore/replace files with an OLDER mtime (mv file.orig file, cp -p, rsync -t, untar): legal, unusual
+    back = [False] + [rng.random() < 0.12 for _ in versions[1:]]
+    return {"versions": versions, "ops": op_log, "mtime_back": back}
